@@ -184,10 +184,18 @@ def make_poly(oid, pe, with_data):
                       stubs=STUBS, max_paths=3000)
 
 
+def _perturbed_lon(ctx):
+    lon = [z3.Real(f"lon_{i}") for i in range(N_NODE)]
+    for v, b in zip(lon, LON_FIXED):
+        ctx.solver.add(v >= b - 2, v <= b + 2)
+    ctx.eng.declare("lon", lon)
+    return lon
+
+
 def make_gdf(oid, pe, engine, with_data):
     def setup(ctx):
         ctx.const("pe", pe); ctx.const("engine", engine)
-        lon = _sym_lon(ctx)
+        lon = _sym_lon(ctx) if pe != "split" else _perturbed_lon(ctx)
         data = [z3.Real(f"d_{f}") for f in range(N_FACE)]
         ctx.eng.declare("data", data)
         return lon, data
@@ -273,6 +281,15 @@ def make_gdf(oid, pe, engine, with_data):
             gdf = ux.UxDataArray(data, dims=["n_face"], uxgrid=g, name="v").to_geodataframe(periodic_elements=pe, engine=engine)
         else:
             gdf = g.to_geodataframe(periodic_elements=pe, engine=engine)
+        if pe == "split" and len(gdf) == N_FACE:
+            # each row must be its own face's geometry: compare latitude ranges (cutting along the antimeridian keeps them)
+            for f in range(N_FACE):
+                geom = gdf["geometry"].iloc[f] if engine == "geopandas" else gdf["geometry"].values[f].to_shapely()
+                lo, hi = geom.bounds[1], geom.bounds[3]
+                c = C.face_corners(ROWS[f])
+                elo, ehi = min(LAT[i] for i in c), max(LAT[i] for i in c)
+                if abs(lo - elo) > 0.5 or abs(hi - ehi) > 0.5:
+                    return f"'split'/{engine}: row {f} spans latitudes [{lo:.2f},{hi:.2f}] but face {f} spans [{elo},{ehi}] (crossing faces {am})"
         keep = [f for f in range(N_FACE) if f not in am] if pe == "exclude" else list(range(N_FACE))
         if len(gdf) != len(keep):
             return f"'{pe}'/{engine}: {len(gdf)} rows for {len(keep)} expected faces (crossing faces {am}, lon {lon})"
@@ -518,7 +535,7 @@ def obligations(tier):
     obs += [make_history("C15.history.line", "line", 2, dom={"*": {"pe": ["exclude", "split"], "proj": [None, "P1"]}}), make_history("C15.history.poly", "poly", 2, dom=two),
             make_history("C15.history.poly_data", "poly_data", 3,
                          dom={0: {"pe": ["exclude", "split"], "proj": [None, "P1"], "cache": [True], "override": [False]},
-                              1: {"pe": ["exclude", "split"], "proj": [None, "P1"], "override": [False], "data": [False]},
+                              1: {"pe": ["exclude", "split"], "proj": [None, "P1"], "override": [False]},
                               2: {"pe": ["exclude", "split"], "proj": [None, "P1"], "cache": [True], "override": [False], "data": [True]}}),
             make_history("C15.history.gdf", "gdf", 2, dom={"*": {"proj": [None, "P1"]}}),
             make_history("C15.history.gdf_data", "gdf_data", 2, dom={"*": {"proj": [None, "P1"], "eng": ["spatialpandas"], "override": [False]}}),
